@@ -115,18 +115,26 @@ func checkC03(m model.Packet, st styleJSON, prelude ...preOp) (frame []byte, sig
 	if d := model.Diff(back, want); d != "" {
 		return frame, "harness", fmt.Sprintf("reference codec self-check: %s", d), true
 	}
+	sig, msg = compareWithFrame(frame, want)
+	return frame, sig, msg, false
+}
+
+// compareWithFrame: the library must accept frame and report the values in
+// want (what a specification-faithful reading of frame gives).
+func compareWithFrame(frame []byte, want model.Packet) (sig, msg string) {
+	m := want
 	q, err, pan := read(frame)
 	if pan != nil {
-		return frame, "read-panic", fmt.Sprintf("ReadPacket panicked on valid frame %s: %v\n%s", hx(frame), pan.Value, pan.Stack), false
+		return "read-panic", fmt.Sprintf("ReadPacket panicked on valid frame %s: %v\n%s", hx(frame), pan.Value, pan.Stack)
 	}
 	if err != nil {
-		return frame, "reject:" + typeName(m.Type), fmt.Sprintf("ReadPacket rejects a valid %s frame %s: %v", typeName(m.Type), hx(frame), err), false
+		return "reject:" + typeName(m.Type), fmt.Sprintf("ReadPacket rejects a valid %s frame %s: %v", typeName(m.Type), hx(frame), err)
 	}
 	if q == nil {
-		return frame, "nil-nil", "ReadPacket returned (nil, nil)", false
+		return "nil-nil", "ReadPacket returned (nil, nil)"
 	}
 	if api.TypeOf(q) != int(m.Type) {
-		return frame, "type", fmt.Sprintf("frame is %s, read %T", typeName(m.Type), q), false
+		return "type", fmt.Sprintf("frame is %s, read %T", typeName(m.Type), q)
 	}
 	if m.Type == model.DISCONNECT && !api.DisconnectHasProps() {
 		// no accessors to compare: acceptance only, plus what exists
@@ -134,9 +142,9 @@ func checkC03(m model.Packet, st styleJSON, prelude ...preOp) (frame []byte, sig
 	}
 	got := api.Observe(q)
 	if d := model.Diff(got, want); d != "" {
-		return frame, "field:" + fieldOf(d), fmt.Sprintf("accessors differ from the values the frame carries (got vs frame) %s\nframe %s", d, hx(frame)), false
+		return "field:" + fieldOf(d), fmt.Sprintf("accessors differ from the values the frame carries (got vs frame) %s\nframe %s", d, hx(frame))
 	}
-	return frame, "", "", false
+	return "", ""
 }
 
 func TestC03(t *testing.T) {
@@ -148,6 +156,16 @@ func TestC03(t *testing.T) {
 		var c caseC03
 		if err := json.Unmarshal(rf.Case, &c); err != nil {
 			t.Fatalf("replay %s: %v", rf.Source, err)
+		}
+		if c.ModelGob == "" && len(c.Frame) > 0 {
+			// a frame found by the native fuzz target: valid by the strict
+			// reference reading, compared with the values that reading gives
+			msg := checkC03Frame(c.Frame)
+			r.Case(vf.FP(c.Frame), true, "replay/frame", func() interface{} { return hx(c.Frame) })
+			if msg != "" {
+				r.FailReplay(rf, "%s", msg)
+			}
+			continue
 		}
 		m, err := unpackModel(c.ModelGob)
 		if err != nil {
@@ -237,4 +255,34 @@ func permute(a []int, k int, f func([]int) bool) bool {
 		a[k], a[i] = a[i], a[k]
 	}
 	return true
+}
+
+// checkC03Frame judges raw bytes: if the strict reference decoder accepts
+// them as exactly one structurally valid MQTT v5.0 frame, the library must
+// accept them too and report the values the reference reading gives.
+func checkC03Frame(data []byte) string {
+	want, err := ref.DecodeStrict(data)
+	if err != nil {
+		return "" // not in the valid-frame language (as far as the strict reading goes)
+	}
+	_, msg := compareWithFrame(data, want)
+	return msg
+}
+
+// FuzzValidFrame: coverage-guided search for a valid frame (by the strict
+// reference reading) that the library rejects or reads differently. The
+// domain filter is the reference decoder, so the fuzzer explores the valid-
+// frame language from the byte side instead of from abstract packets.
+func FuzzValidFrame(f *testing.F) {
+	for _, s := range fuzzSeeds() {
+		f.Add(s)
+	}
+	f.Fuzz(func(t *testing.T, data []byte) {
+		if len(data) > 1<<17 {
+			return
+		}
+		if msg := checkC03Frame(data); msg != "" {
+			t.Fatalf("%s", msg)
+		}
+	})
 }
